@@ -49,6 +49,22 @@ var AC3BitrateCodesKbps = []uint16{
 	640,
 }
 
+// ac3SampleRate returns the sample rate for fscod, or 0 for the reserved code 3.
+func ac3SampleRate(fscod byte) int {
+	if int(fscod) >= len(AC3SampleRates) {
+		return 0
+	}
+	return AC3SampleRates[fscod]
+}
+
+// ac3BitrateKbps returns the bitrate for a bit_rate_code, or 0 for reserved codes.
+func ac3BitrateKbps(bitRateCode byte) uint16 {
+	if int(bitRateCode) >= len(AC3BitrateCodesKbps) {
+		return 0
+	}
+	return AC3BitrateCodesKbps[bitRateCode]
+}
+
 // Dac3Box - AC3SpecificBox from ETSI TS 102 366 V1.4.1 F.4 (2017)
 // Extra b
 type Dac3Box struct {
@@ -158,11 +174,11 @@ func (b *Dac3Box) ChannelInfo() (nrChannels int, chanmap uint16) {
 
 func (b *Dac3Box) Info(w io.Writer, specificBoxLevels, indent, indentStep string) error {
 	bd := newInfoDumper(w, indent, b, -1, 0)
-	bd.write(" - sampleRateCode=%d => sampleRate=%d", b.FSCod, AC3SampleRates[b.FSCod])
+	bd.write(" - sampleRateCode=%d => sampleRate=%d", b.FSCod, ac3SampleRate(b.FSCod))
 	bd.write(" - bitStreamInformation=%d", b.BSID)
 	bd.write(" - audioCodingMode=%d => channelConfiguration=%q", b.ACMod, AC3acmodChannelTable[b.ACMod])
 	bd.write(" - lowFrequencyEffectsChannelOn=%d", b.LFEOn)
-	bd.write(" - bitRateCode=%d => bitrate=%dkbps", b.BitRateCode, AC3BitrateCodesKbps[b.BitRateCode])
+	bd.write(" - bitRateCode=%d => bitrate=%dkbps", b.BitRateCode, ac3BitrateKbps(b.BitRateCode))
 	nrChannels, chanmap := b.ChannelInfo()
 	bd.write(" - nrChannels=%d, chanmap=%04x", nrChannels, chanmap)
 	if b.Reserved != 0 {
@@ -175,11 +191,11 @@ func (b *Dac3Box) Info(w io.Writer, specificBoxLevels, indent, indentStep string
 }
 
 func (b *Dac3Box) BitrateBps() int {
-	return int(AC3BitrateCodesKbps[b.BitRateCode]) * 1000
+	return int(ac3BitrateKbps(b.BitRateCode)) * 1000
 }
 
 func (b *Dac3Box) SamplingFrequency() int {
-	return int(AC3SampleRates[b.FSCod])
+	return ac3SampleRate(b.FSCod)
 }
 
 // GetChannelListFromACMod - get list of channels from acmod byte
